@@ -4,9 +4,11 @@ import CpProofs.C19Lemmas
   C19 helper: round trip of the RFC 2617 credentials serialisation through the transcription of
   `urllib.request.parse_http_list` / `parse_keqv_list`.
 
-  `serialise [(k₁,v₁), …]` = `k₁="esc(v₁)", k₂="esc(v₂)", …` with `\` and `"` backslash-escaped.  For keys that are
-  non-empty and free of `,` `"` `=` and white space, and **arbitrary** values (commas, quotes, backslashes, spaces,
-  empty, any code point), the parsers give back exactly the pairs.
+  `serialise [f₁, f₂, …]` = `f₁, f₂, …` where a field is written either as `k="esc(v)"` (quoted-string, `\` and `"`
+  backslash-escaped; **arbitrary** value: commas, quotes, backslashes, spaces, empty, any code point) or as `k=v`
+  (token form, as RFC 2617 spells `qop=auth`, `nc=00000001`, `algorithm=MD5`; value non-empty, free of `,` `"` and
+  white space).  For keys that are non-empty and free of `,` `"` `=` and white space the parsers give back exactly
+  the pairs.
 -/
 namespace CpProofs.C19
 open CpModel.Auth CpModel.Gen.C19
@@ -22,14 +24,41 @@ def item (k v : Str) : Str := k ++ '=' :: '"' :: (escQ v ++ ['"'])
 /-- `k="v"` as `parse_http_list` hands it on (escapes resolved) -/
 def item' (k v : Str) : Str := k ++ '=' :: '"' :: (v ++ ['"'])
 
-def serialise : List (Str × Str) → Str
-  | [] => []
-  | [(k, v)] => item k v
-  | (k, v) :: kv2 :: rest => item k v ++ ',' :: ' ' :: serialise (kv2 :: rest)
-
 structure GoodKey (k : Str) : Prop where
   ne : k ≠ []
   chars : ∀ c ∈ k, c ≠ ',' ∧ c ≠ '"' ∧ c ≠ '=' ∧ isSpace c = false
+
+structure GoodTok (v : Str) : Prop where
+  ne : v ≠ []
+  chars : ∀ c ∈ v, c ≠ ',' ∧ c ≠ '"' ∧ isSpace c = false
+
+/-- one credentials parameter as the client writes it -/
+inductive Fld
+  | quoted (k v : Str)
+  | token (k v : Str)
+
+/-- the text on the wire -/
+def Fld.text : Fld → Str
+  | .quoted k v => item k v
+  | .token k v => k ++ '=' :: v
+
+/-- the list item `parse_http_list` hands on -/
+def Fld.seen : Fld → Str
+  | .quoted k v => item' k v
+  | .token k v => k ++ '=' :: v
+
+def Fld.pair : Fld → Str × Str
+  | .quoted k v => (k, v)
+  | .token k v => (k, v)
+
+def Fld.Good : Fld → Prop
+  | .quoted k _ => GoodKey k
+  | .token k v => GoodKey k ∧ GoodTok v
+
+def serialise : List Fld → Str
+  | [] => []
+  | [f] => f.text
+  | f :: f2 :: rest => f.text ++ ',' :: ' ' :: serialise (f2 :: rest)
 
 /-! ### the `parse_http_list` state machine on the pieces -/
 
@@ -85,34 +114,49 @@ theorem fold_item (k v : Str) (hk : GoodKey k) (rest : Str) (res : List Str) (pa
   rw [this]
   simp
 
-/-- the items `parse_http_list` collects (before `strip`), newest first, and the pending part -/
-def collected (res : List Str) (pre : Str) : List (Str × Str) → List Str × Str
-  | [] => (res, pre)
-  | [(k, v)] => (res, (item' k v).reverse ++ pre)
-  | (k, v) :: kv2 :: rest => collected ((pre.reverse ++ item' k v) :: res) [' '] (kv2 :: rest)
+theorem fold_fld (f : Fld) (hf : f.Good) (rest : Str) (res : List Str) (part : Str) :
+    (f.text ++ rest).foldl hlStep ⟨res, part, false, false⟩ =
+      rest.foldl hlStep ⟨res, f.seen.reverse ++ part, false, false⟩ := by
+  cases f with
+  | quoted k v => exact fold_item k v hf rest res part
+  | token k v =>
+    obtain ⟨hk, hv⟩ := hf
+    have hall : ∀ c ∈ k ++ '=' :: v, c ≠ ',' ∧ c ≠ '"' := by
+      intro c hc
+      rcases List.mem_append.mp hc with h | h
+      · exact ⟨(hk.chars c h).1, (hk.chars c h).2.1⟩
+      · rcases List.mem_cons.mp h with h | h
+        · subst h; decide
+        · exact ⟨(hv.chars c h).1, (hv.chars c h).2.1⟩
+    exact fold_key (k ++ '=' :: v) hall rest res part
 
-theorem fold_serialise (kvs : List (Str × Str)) (hk : ∀ kv ∈ kvs, GoodKey kv.1) (res : List Str) (pre : Str) :
-    (serialise kvs).foldl hlStep ⟨res, pre, false, false⟩ =
-      ⟨(collected res pre kvs).1, (collected res pre kvs).2, false, false⟩ := by
-  induction kvs generalizing res pre with
+/-- the items `parse_http_list` collects (before `strip`), newest first, and the pending part -/
+def collected (res : List Str) (pre : Str) : List Fld → List Str × Str
+  | [] => (res, pre)
+  | [f] => (res, f.seen.reverse ++ pre)
+  | f :: f2 :: rest => collected ((pre.reverse ++ f.seen) :: res) [' '] (f2 :: rest)
+
+theorem fold_serialise (fs : List Fld) (hk : ∀ f ∈ fs, f.Good) (res : List Str) (pre : Str) :
+    (serialise fs).foldl hlStep ⟨res, pre, false, false⟩ =
+      ⟨(collected res pre fs).1, (collected res pre fs).2, false, false⟩ := by
+  induction fs generalizing res pre with
   | nil => simp [serialise, collected]
-  | cons kv rest ih =>
-    obtain ⟨k, v⟩ := kv
-    have hkk : GoodKey k := hk (k, v) (by simp)
+  | cons f rest ih =>
+    have hkk : f.Good := hk f (by simp)
     cases rest with
     | nil =>
-      have := fold_item k v hkk [] res pre
+      have := fold_fld f hkk [] res pre
       simpa [serialise, collected] using this
-    | cons kv2 rest' =>
-      have hrest : ∀ kv ∈ kv2 :: rest', GoodKey kv.1 := fun kv h => hk kv (List.mem_cons_of_mem _ h)
+    | cons f2 rest' =>
+      have hrest : ∀ g ∈ f2 :: rest', g.Good := fun g h => hk g (List.mem_cons_of_mem _ h)
       simp only [serialise, collected]
-      rw [fold_item k v hkk]
+      rw [fold_fld f hkk]
       simp only [List.foldl_cons]
-      have h1 : hlStep ⟨res, (item' k v).reverse ++ pre, false, false⟩ ',' =
-          ⟨(pre.reverse ++ item' k v) :: res, [], false, false⟩ := by
+      have h1 : hlStep ⟨res, f.seen.reverse ++ pre, false, false⟩ ',' =
+          ⟨(pre.reverse ++ f.seen) :: res, [], false, false⟩ := by
         simp [hlStep]
-      have h2 : hlStep ⟨(pre.reverse ++ item' k v) :: res, [], false, false⟩ ' ' =
-          ⟨(pre.reverse ++ item' k v) :: res, [' '], false, false⟩ := by
+      have h2 : hlStep ⟨(pre.reverse ++ f.seen) :: res, [], false, false⟩ ' ' =
+          ⟨(pre.reverse ++ f.seen) :: res, [' '], false, false⟩ := by
         simp [hlStep]
       rw [h1, h2, ih hrest]
 
@@ -132,61 +176,91 @@ theorem item'_rev (k v : Str) : ∃ cs, (item' k v).reverse = '"' :: cs := by
   refine ⟨(k ++ '=' :: '"' :: v).reverse, ?_⟩
   simp
 
-theorem strip_item' (k v : Str) (hk : GoodKey k) : pyStrip (item' k v) = item' k v := by
-  obtain ⟨c, cs, h1, h2⟩ := item'_head k v hk
-  obtain ⟨rs, h3⟩ := item'_rev k v
+/-- a string whose first and last characters are not white space is left alone by `strip()` -/
+theorem strip_id (s : Str) (c : Char) (cs : Str) (d : Char) (rs : Str) (h1 : s = c :: cs) (h2 : isSpace c = false)
+    (h3 : s.reverse = d :: rs) (h4 : isSpace d = false) : pyStrip s = s := by
   unfold pyStrip
-  rw [h1, dropWhile_head c cs h2, ← h1, h3, dropWhile_head '"' rs (by decide), ← h3]
+  rw [h1, dropWhile_head c cs h2, ← h1, h3, dropWhile_head d rs h4, ← h3]
   simp
 
-theorem strip_space_item' (k v : Str) (hk : GoodKey k) : pyStrip (' ' :: item' k v) = item' k v := by
-  have : pyStrip (' ' :: item' k v) = pyStrip (item' k v) := by
+theorem seen_head (f : Fld) (hf : f.Good) : ∃ c cs, f.seen = c :: cs ∧ isSpace c = false := by
+  cases f with
+  | quoted k v => exact item'_head k v hf
+  | token k v =>
+    obtain ⟨hk, _⟩ := hf
+    cases k with
+    | nil => exact absurd rfl hk.ne
+    | cons c cs => exact ⟨c, _, rfl, (hk.chars c (by simp)).2.2.2⟩
+
+theorem seen_last (f : Fld) (hf : f.Good) : ∃ d rs, f.seen.reverse = d :: rs ∧ isSpace d = false := by
+  cases f with
+  | quoted k v =>
+    obtain ⟨rs, h⟩ := item'_rev k v
+    exact ⟨'"', rs, h, by decide⟩
+  | token k v =>
+    obtain ⟨_, hv⟩ := hf
+    have hne : v.reverse ≠ [] := by simpa using hv.ne
+    cases hr : v.reverse with
+    | nil => exact absurd hr hne
+    | cons d rs =>
+      have hd : d ∈ v := by
+        have : d ∈ v.reverse := by rw [hr]; simp
+        simpa using this
+      refine ⟨d, rs ++ ('=' :: k.reverse), ?_, (hv.chars d hd).2.2⟩
+      simp [Fld.seen, hr]
+
+theorem strip_seen (f : Fld) (hf : f.Good) : pyStrip f.seen = f.seen := by
+  obtain ⟨c, cs, h1, h2⟩ := seen_head f hf
+  obtain ⟨d, rs, h3, h4⟩ := seen_last f hf
+  exact strip_id _ c cs d rs h1 h2 h3 h4
+
+theorem strip_space_seen (f : Fld) (hf : f.Good) : pyStrip (' ' :: f.seen) = f.seen := by
+  have : pyStrip (' ' :: f.seen) = pyStrip f.seen := by
     unfold pyStrip
     have hs : isSpace ' ' = true := by decide
     simp [List.dropWhile, hs]
-  rw [this, strip_item' k v hk]
+  rw [this, strip_seen f hf]
 
 /-- the pending prefix is either empty (first item) or the single space after a comma -/
-theorem collected_out (kvs : List (Str × Str)) (hk : ∀ kv ∈ kvs, GoodKey kv.1) (hne : kvs ≠ [])
+theorem collected_out (fs : List Fld) (hk : ∀ f ∈ fs, f.Good) (hne : fs ≠ [])
     (res : List Str) (pre : Str) (hpre : pre = [] ∨ pre = [' ']) :
-    ((collected res pre kvs).2.reverse :: (collected res pre kvs).1).reverse.map pyStrip =
-      res.reverse.map pyStrip ++ kvs.map (fun kv => item' kv.1 kv.2) ∧ (collected res pre kvs).2 ≠ [] := by
-  induction kvs generalizing res pre with
+    ((collected res pre fs).2.reverse :: (collected res pre fs).1).reverse.map pyStrip =
+      res.reverse.map pyStrip ++ fs.map Fld.seen ∧ (collected res pre fs).2 ≠ [] := by
+  induction fs generalizing res pre with
   | nil => exact absurd rfl hne
-  | cons kv rest ih =>
-    obtain ⟨k, v⟩ := kv
-    have hkk : GoodKey k := hk (k, v) (by simp)
-    have hstrip : pyStrip (pre.reverse ++ item' k v) = item' k v := by
+  | cons f rest ih =>
+    have hkk : f.Good := hk f (by simp)
+    have hstrip : pyStrip (pre.reverse ++ f.seen) = f.seen := by
       rcases hpre with rfl | rfl
-      · simpa using strip_item' k v hkk
-      · simpa using strip_space_item' k v hkk
+      · simpa using strip_seen f hkk
+      · simpa using strip_space_seen f hkk
     cases rest with
     | nil =>
       simp only [collected]
       constructor
       · simp [hstrip]
-      · obtain ⟨rs, h3⟩ := item'_rev k v
+      · obtain ⟨d, rs, h3, _⟩ := seen_last f hkk
         rw [h3]; simp
-    | cons kv2 rest' =>
-      have hrest : ∀ kv ∈ kv2 :: rest', GoodKey kv.1 := fun kv h => hk kv (List.mem_cons_of_mem _ h)
+    | cons f2 rest' =>
+      have hrest : ∀ g ∈ f2 :: rest', g.Good := fun g h => hk g (List.mem_cons_of_mem _ h)
       simp only [collected]
-      obtain ⟨h1, h2⟩ := ih hrest (by simp) ((pre.reverse ++ item' k v) :: res) [' '] (Or.inr rfl)
+      obtain ⟨h1, h2⟩ := ih hrest (by simp) ((pre.reverse ++ f.seen) :: res) [' '] (Or.inr rfl)
       refine ⟨?_, h2⟩
       rw [h1]
       simp [hstrip]
 
 /-- `parse_http_list` on the serialisation: the items with their escapes resolved -/
-theorem parseHttpList_serialise (kvs : List (Str × Str)) (hk : ∀ kv ∈ kvs, GoodKey kv.1) :
-    parseHttpList (serialise kvs) = kvs.map (fun kv => item' kv.1 kv.2) := by
+theorem parseHttpList_serialise (fs : List Fld) (hk : ∀ f ∈ fs, f.Good) :
+    parseHttpList (serialise fs) = fs.map Fld.seen := by
   unfold parseHttpList
-  rw [fold_serialise kvs hk]
-  cases kvs with
+  rw [fold_serialise fs hk]
+  cases fs with
   | nil => simp [collected]
-  | cons kv rest =>
-    obtain ⟨h1, h2⟩ := collected_out (kv :: rest) hk (by simp) [] [] (Or.inl rfl)
+  | cons f rest =>
+    obtain ⟨h1, h2⟩ := collected_out (f :: rest) hk (by simp) [] [] (Or.inl rfl)
     simp only
-    have : (collected [] [] (kv :: rest)).2.isEmpty = false := by
-      cases h : (collected [] [] (kv :: rest)).2 with
+    have : (collected [] [] (f :: rest)).2.isEmpty = false := by
+      cases h : (collected [] [] (f :: rest)).2 with
       | nil => exact absurd h h2
       | cons _ _ => rfl
     rw [this]
@@ -203,19 +277,32 @@ theorem parseKeqv1_item' (k v : Str) (hk : GoodKey k) : parseKeqv1 (item' k v) =
   rw [split1_of_append k _ hke]
   simp [getLast_snoc]
 
-theorem parseKeqvList_items (kvs : List (Str × Str)) (hk : ∀ kv ∈ kvs, GoodKey kv.1) :
-    parseKeqvList (kvs.map (fun kv => item' kv.1 kv.2)) = .ok kvs := by
-  induction kvs with
-  | nil => rfl
-  | cons kv rest ih =>
-    obtain ⟨k, v⟩ := kv
-    have hkk : GoodKey k := hk (k, v) (by simp)
-    have hrest : ∀ kv ∈ rest, GoodKey kv.1 := fun kv h => hk kv (List.mem_cons_of_mem _ h)
-    simp only [List.map_cons, parseKeqvList, parseKeqv1_item' k v hkk, ih hrest]
+theorem parseKeqv1_seen (f : Fld) (hf : f.Good) : parseKeqv1 f.seen = .ok f.pair := by
+  cases f with
+  | quoted k v => exact parseKeqv1_item' k v hf
+  | token k v =>
+    obtain ⟨hk, hv⟩ := hf
+    have hke : '=' ∉ k := fun h => (hk.chars '=' h).2.2.1 rfl
+    cases v with
+    | nil => exact absurd rfl hv.ne
+    | cons c cs =>
+      have hc : c ≠ '"' := (hv.chars c (by simp)).2.1
+      unfold parseKeqv1 Fld.seen Fld.pair
+      rw [split1_of_append k _ hke]
+      simp [hc]
 
-/-- **serialise → parse round trip**: arbitrary values, well-formed keys -/
-theorem parse_serialise (kvs : List (Str × Str)) (hk : ∀ kv ∈ kvs, GoodKey kv.1) :
-    parseKeqvList (parseHttpList (serialise kvs)) = .ok kvs := by
-  rw [parseHttpList_serialise kvs hk, parseKeqvList_items kvs hk]
+theorem parseKeqvList_items (fs : List Fld) (hk : ∀ f ∈ fs, f.Good) :
+    parseKeqvList (fs.map Fld.seen) = .ok (fs.map Fld.pair) := by
+  induction fs with
+  | nil => rfl
+  | cons f rest ih =>
+    have hkk : f.Good := hk f (by simp)
+    have hrest : ∀ g ∈ rest, g.Good := fun g h => hk g (List.mem_cons_of_mem _ h)
+    simp only [List.map_cons, parseKeqvList, parseKeqv1_seen f hkk, ih hrest]
+
+/-- **serialise → parse round trip**: arbitrary quoted values, token values, well-formed keys -/
+theorem parse_serialise (fs : List Fld) (hk : ∀ f ∈ fs, f.Good) :
+    parseKeqvList (parseHttpList (serialise fs)) = .ok (fs.map Fld.pair) := by
+  rw [parseHttpList_serialise fs hk, parseKeqvList_items fs hk]
 
 end CpProofs.C19
